@@ -175,6 +175,9 @@ pub enum Op {
     BlockOn { a: u8, v: u64, o: MO, reg_first: bool },
     /// `AtomicWaker::wake()` on the shared AtomicWaker
     AwWake,
+    /// `block_on` of a future that wakes itself by reference on its first poll (returning
+    /// Pending) and is ready on the second: always completes
+    SelfWake,
     /// `block_on(poll_fn(..))` of a future that is ready when `a == va && b == vb`; on its first
     /// poll it hands a clone of its waker to each of the two waker slots
     BlockOn2 { a: u8, va: u64, b: u8, vb: u64, o: MO },
@@ -353,6 +356,7 @@ impl fmt::Display for Op {
             LazyGet { k } => write!(f, "lazy(z{})", k),
             BlockOn { a, v, o, reg_first } => write!(f, "block_on(a{}=={},{},{})", a, v, o.short(), if *reg_first { "register-then-check" } else { "check-then-register" }),
             AwWake => write!(f, "aw_wake"),
+            SelfWake => write!(f, "block_on(self_wake_once)"),
             BlockOn2 { a, va, b, vb, o } => write!(f, "block_on(a{}=={}&&a{}=={},{})", a, va, b, vb, o.short()),
             SlotWake { i, by_ref } => write!(f, "{}(slot{})", if *by_ref { "wake_by_ref" } else { "wake" }, i),
             StopExploring => write!(f, "stop_exploring"),
